@@ -78,7 +78,7 @@ class DifferentialCheck(core.CheckBase):
         try:
             parsed = cls.parse_exact_size(pair.wire)
         except Exception as e:  # pylint: disable=broad-except
-            found.append(self.violation(roundtrip.exc_key('parse-rejects', e),
+            found.append(self.violation(roundtrip.exc_key('parse-rejects', e) + pair.key_suffix,
                                         '%s: a specification-conformant %s (%s..) is rejected: %r' % (
                                             pair.label, name, pair.wire[:32].hex(), e), case))
             return found
@@ -86,7 +86,7 @@ class DifferentialCheck(core.CheckBase):
         parsed_state = structural.deep_state(parsed)
         if parsed_state != expected_state:
             found.append(self.violation(
-                roundtrip.value_key('parse-differs', cls, expected_state, parsed_state),
+                roundtrip.value_key('parse-differs', cls, expected_state, parsed_state) + pair.key_suffix,
                 '%s: parsing the specification encoding (%s..) does not recover the encoded values: differs at %s' % (
                     pair.label, pair.wire[:32].hex(), structural.diff_path(expected_state, parsed_state)), case))
         found.extend(self.extra_oracles(pair, parsed, case))
